@@ -115,7 +115,6 @@ Proof. intros acc g H. apply reg_of_loaded in H. exact H. Qed.
 Section Refine.
   Variable obs : Type.
   Variable sem : view -> obs.
-  Variable ord : list ghdr -> list ghdr.
 
   Definition Inv (st : state obs) (acc : list ghdr) : Prop :=
     reg st = reg_of acc /\ mods st = acc /\ tdict st = tds_of acc.
@@ -285,20 +284,20 @@ Section Refine.
 
   (* ---------------- Process reads the core and the memos it does not reset; it writes neither core nor byNS *)
   Lemma Process_keeps : forall fx (st : state obs),
-    reg (fst (Process sem ord fx st)) = reg st /\ mods (fst (Process sem ord fx st)) = mods st /\
-    tdict (fst (Process sem ord fx st)) = tdict st /\ byns (fst (Process sem ord fx st)) = byns st /\
-    ecache (fst (Process sem ord fx st)) = Some (snd (Process sem ord fx st)).
+    reg (fst (Process sem fx st)) = reg st /\ mods (fst (Process sem fx st)) = mods st /\
+    tdict (fst (Process sem fx st)) = tdict st /\ byns (fst (Process sem fx st)) = byns st /\
+    ecache (fst (Process sem fx st)) = Some (snd (Process sem fx st)).
   Proof.
-    intros fx st. unfold Process. destruct (process_core ord (reg st) (mods st) (p_init fx st)) as [p ok].
+    intros fx st. unfold Process. destruct (process_core (reg st) (mods st) (p_init fx st)) as [p ok].
     simpl. repeat split.
   Qed.
 
   Lemma Process_obs : forall fx (a b : state obs),
     reg a = reg b -> mods a = mods b -> tdict a = tdict b -> p_init fx a = p_init fx b ->
-    snd (Process sem ord fx a) = snd (Process sem ord fx b).
+    snd (Process sem fx a) = snd (Process sem fx b).
   Proof.
     intros fx a b HR HM HT HP. unfold Process. rewrite HR, HM, HP.
-    destruct (process_core ord (reg b) (mods b) (p_init fx b)) as [p ok]. simpl.
+    destruct (process_core (reg b) (mods b) (p_init fx b)) as [p ok]. simpl.
     unfold view_of. rewrite HR, HM, HT. reflexivity.
   Qed.
 
@@ -335,18 +334,18 @@ Section Refine.
   Qed.
 
   Lemma run_app : forall fx a b (st : state obs),
-    run sem ord fx st (a ++ b) =
-    let '(st1, xs) := run sem ord fx st a in let '(st2, ys) := run sem ord fx st1 b in (st2, xs ++ ys).
+    run sem fx st (a ++ b) =
+    let '(st1, xs) := run sem fx st a in let '(st2, ys) := run sem fx st1 b in (st2, xs ++ ys).
   Proof.
     intros fx. induction a as [|o a IH]; intros b st; simpl.
-    - destruct (run sem ord fx st b); reflexivity.
-    - destruct (step sem ord fx st o) as [st1 x]. rewrite IH.
-      destruct (run sem ord fx st1 a) as [st2 xs]. destruct (run sem ord fx st2 b) as [st3 ys]. reflexivity.
+    - destruct (run sem fx st b); reflexivity.
+    - destruct (step sem fx st o) as [st1 x]. rewrite IH.
+      destruct (run sem fx st1 a) as [st2 xs]. destruct (run sem fx st2 b) as [st3 ys]. reflexivity.
   Qed.
 
   Lemma fresh_from : forall fx gs (st : state obs) acc,
     Inv st acc -> NoDup (keys (acc ++ gs)) ->
-    Inv (fst (run sem ord fx st (map one gs))) (acc ++ gs) /\ same_memo st (fst (run sem ord fx st (map one gs))).
+    Inv (fst (run sem fx st (map one gs))) (acc ++ gs) /\ same_memo st (fst (run sem fx st (map one gs))).
   Proof.
     intros fx. induction gs as [|g gs IH]; intros st acc HI HN.
     - simpl. rewrite app_nil_r. split; [exact HI|apply same_memo_refl].
@@ -359,14 +358,14 @@ Section Refine.
       destruct (load_accept fx st acc _ _ HI HS) as [st1 [HL [HI1 [HM1 _]]]].
       rewrite HL. specialize (IH st1 (acc ++ [g]) HI1).
       rewrite <- app_assoc in IH. simpl in IH. specialize (IH HN).
-      destruct (run sem ord fx st1 (map one gs)) as [st2 xs]. simpl in *.
+      destruct (run sem fx st1 (map one gs)) as [st2 xs]. simpl in *.
       destruct IH as [IH1 IH2]. split; [exact IH1|].
       destruct HM1 as [A [B [C [D [E F]]]]]. destruct IH2 as [A' [B' [C' [D' [E' F']]]]].
       repeat split; congruence.
   Qed.
 
   Lemma fresh_inv : forall fx acc, NoDup (keys acc) ->
-    Inv (fresh sem ord fx acc) acc /\ unprocessed (fresh sem ord fx acc).
+    Inv (fresh sem fx acc) acc /\ unprocessed (fresh sem fx acc).
   Proof.
     intros fx acc HN. unfold fresh. change (map (fun g => Load (Items [Good g])) acc) with (map one acc).
     destruct (fresh_from fx acc NewState [] Inv_new HN) as [HI HM]. simpl in HI. split; [exact HI|].
@@ -442,14 +441,14 @@ Section Refine.
 
   Definition Sim (fx : fixes) (st : state obs) (a : astate) : Prop :=
     Inv st (a_acc a) /\ NoDup (keys (a_acc a)) /\ NsInv st (a_acc a) /\
-    ecache st = option_map (batch sem ord fx) (a_snap a).
+    ecache st = option_map (batch sem fx) (a_snap a).
 
   Lemma Sim_init : forall fx, Sim fx NewState a_init.
   Proof. intros fx. split; [apply Inv_new|]. split; [constructor|]. split; [|reflexivity]. intros ns id H. discriminate. Qed.
 
   Lemma Process_batch : forall fx (st : state obs) acc,
     Inv st acc -> NoDup (keys acc) -> all_fixed fx = true \/ unprocessed st ->
-    snd (Process sem ord fx st) = batch sem ord fx acc.
+    snd (Process sem fx st) = batch sem fx acc.
   Proof.
     intros fx st acc [HR [HM HT]] HN Hor. unfold batch.
     destruct (fresh_inv fx acc HN) as [[FR [FM FT]] FU].
@@ -459,8 +458,8 @@ Section Refine.
 
   Lemma step_sim : forall fx (st : state obs) a o,
     all_fixed fx = true -> Sim fx st a ->
-    snd (step sem ord fx st o) = snd (spec_step sem ord fx a o) /\
-    Sim fx (fst (step sem ord fx st o)) (fst (spec_step sem ord fx a o)).
+    snd (step sem fx st o) = snd (spec_step sem fx a o) /\
+    Sim fx (fst (step sem fx st o)) (fst (spec_step sem fx a o)).
   Proof.
     intros fx st a o HF [HI [HN [HS HE]]].
     pose proof (all_fixed_flags fx HF) as [FA [FB _]].
@@ -477,7 +476,7 @@ Section Refine.
         split; [reflexivity|]. split; [exact HI|]. split; [exact HN|]. split; [exact HS|exact HE].
     - pose proof (Process_keeps fx st) as [KR [KM [KT [KB KE]]]].
       pose proof (Process_batch fx st (a_acc a) HI HN (or_introl HF)) as HB.
-      destruct (Process sem ord fx st) as [st' r]. cbn [fst snd a_acc a_snap] in *.
+      destruct (Process sem fx st) as [st' r]. cbn [fst snd a_acc a_snap] in *.
       split; [rewrite HB; reflexivity|].
       destruct HI as [HR [HM HT]].
       unfold Sim, Inv. cbn [a_acc a_snap option_map]. split; [repeat split; congruence|]. split; [exact HN|]. split.
@@ -493,33 +492,33 @@ Section Refine.
 
   Lemma run_sim : forall fx ops (st : state obs) a,
     all_fixed fx = true -> Sim fx st a ->
-    snd (run sem ord fx st ops) = snd (spec_run sem ord fx a ops) /\
-    Sim fx (fst (run sem ord fx st ops)) (fst (spec_run sem ord fx a ops)).
+    snd (run sem fx st ops) = snd (spec_run sem fx a ops) /\
+    Sim fx (fst (run sem fx st ops)) (fst (spec_run sem fx a ops)).
   Proof.
     intros fx. induction ops as [|o ops IH]; intros st a HF HS; cbn [run spec_run].
     - split; [reflexivity|exact HS].
     - destruct (step_sim fx st a o HF HS) as [E1 S1].
-      destruct (step sem ord fx st o) as [st1 x]. destruct (spec_step sem ord fx a o) as [a1 y].
+      destruct (step sem fx st o) as [st1 x]. destruct (spec_step sem fx a o) as [a1 y].
       cbn [fst snd] in *. destruct (IH st1 a1 HF S1) as [E2 S2].
-      destruct (run sem ord fx st1 ops) as [st2 xs]. destruct (spec_run sem ord fx a1 ops) as [a2 ys].
+      destruct (run sem fx st1 ops) as [st2 xs]. destruct (spec_run sem fx a1 ops) as [a2 ys].
       cbn [fst snd] in *. split; [congruence|exact S2].
   Qed.
 
   (* T: history refinement, for the code with every repair *)
   Theorem refinement : forall fx ops, all_fixed fx = true ->
-    snd (run sem ord fx NewState ops) = snd (spec_run sem ord fx a_init ops).
+    snd (run sem fx NewState ops) = snd (spec_run sem fx a_init ops).
   Proof. intros fx ops HF. apply (run_sim fx ops NewState a_init HF (Sim_init fx)). Qed.
 
   (* the accepted items after a history *)
-  Definition accepted (fx : fixes) (ops : list op) : list ghdr := a_acc (fst (spec_run sem ord fx a_init ops)).
+  Definition accepted (fx : fixes) (ops : list op) : list ghdr := a_acc (fst (spec_run sem fx a_init ops)).
 
   Theorem process_twice : forall fx pre, all_fixed fx = true ->
-    let st := fst (run sem ord fx NewState pre) in
-    snd (Process sem ord fx (fst (Process sem ord fx st))) = snd (Process sem ord fx st).
+    let st := fst (run sem fx NewState pre) in
+    snd (Process sem fx (fst (Process sem fx st))) = snd (Process sem fx st).
   Proof.
     intros fx pre HF st.
     destruct (run_sim fx pre NewState a_init HF (Sim_init fx)) as [_ [HI [HN _]]]. fold st in HI.
-    set (acc := a_acc (fst (spec_run sem ord fx a_init pre))) in *.
+    set (acc := a_acc (fst (spec_run sem fx a_init pre))) in *.
     rewrite (Process_batch fx st acc HI HN (or_introl HF)).
     pose proof (Process_keeps fx st) as [KR [KM [KT _]]].
     apply Process_batch; [|exact HN|left; exact HF].
@@ -527,8 +526,8 @@ Section Refine.
   Qed.
 
   Theorem incremental : forall fx pre more, all_fixed fx = true ->
-    let st := fst (run sem ord fx NewState (pre ++ Proc :: map Load more)) in
-    snd (Process sem ord fx st) = batch sem ord fx (accepted fx (pre ++ Proc :: map Load more)).
+    let st := fst (run sem fx NewState (pre ++ Proc :: map Load more)) in
+    snd (Process sem fx st) = batch sem fx (accepted fx (pre ++ Proc :: map Load more)).
   Proof.
     intros fx pre more HF st.
     destruct (run_sim fx (pre ++ Proc :: map Load more) NewState a_init HF (Sim_init fx)) as [_ [HI [HN _]]].
@@ -538,13 +537,13 @@ Section Refine.
   (* a text that fails leaves no trace: the rest of the history runs as if it had not been offered *)
   Theorem failed_load_invisible : forall fx (st : state obs) t post,
     snd (load fx st t) = false -> fx_atomic fx = true \/ fails_at_first st t = true ->
-    run sem ord fx st (Load t :: post) =
-    (fst (run sem ord fx st post), OLoad false :: snd (run sem ord fx st post)).
+    run sem fx st (Load t :: post) =
+    (fst (run sem fx st post), OLoad false :: snd (run sem fx st post)).
   Proof.
     intros fx st t post HF Hor. cbn [run step].
     pose proof (failed_load_no_trace fx st t HF Hor) as HS.
     destruct (load fx st t) as [st' ok]. cbn [fst snd] in *. subst.
-    destruct (run sem ord fx st post); reflexivity.
+    destruct (run sem fx st post); reflexivity.
   Qed.
 
   (* any code, pinned included: loads (none of the listed shape) followed by the first Process *)
@@ -552,11 +551,11 @@ Section Refine.
 
   Lemma loads_sim : forall fx ts (st : state obs) acc,
     Inv st acc -> NoDup (keys acc) -> no_partial acc (map Load ts) ->
-    snd (run sem ord fx st (map Load ts)) = snd (spec_run sem ord fx (a0 acc) (map Load ts)) /\
-    Inv (fst (run sem ord fx st (map Load ts))) (a_acc (fst (spec_run sem ord fx (a0 acc) (map Load ts)))) /\
-    NoDup (keys (a_acc (fst (spec_run sem ord fx (a0 acc) (map Load ts))))) /\
-    a_snap (fst (spec_run sem ord fx (a0 acc) (map Load ts))) = None /\
-    same_memo st (fst (run sem ord fx st (map Load ts))).
+    snd (run sem fx st (map Load ts)) = snd (spec_run sem fx (a0 acc) (map Load ts)) /\
+    Inv (fst (run sem fx st (map Load ts))) (a_acc (fst (spec_run sem fx (a0 acc) (map Load ts)))) /\
+    NoDup (keys (a_acc (fst (spec_run sem fx (a0 acc) (map Load ts))))) /\
+    a_snap (fst (spec_run sem fx (a0 acc) (map Load ts))) = None /\
+    same_memo st (fst (run sem fx st (map Load ts))).
   Proof.
     intros fx. induction ts as [|t ts IH]; intros st acc HI HN HP.
     - cbn. split; [reflexivity|]. split; [exact HI|]. split; [exact HN|]. split; [reflexivity|apply same_memo_refl].
@@ -564,59 +563,59 @@ Section Refine.
       destruct (spec_load acc t) as [gs|] eqn:EL.
       + destruct (load_accept fx st acc t gs HI EL) as [st' [HL [HI' [HM _]]]]. rewrite HL.
         specialize (IH st' (acc ++ gs) HI' (spec_load_nodup _ _ _ HN EL) HP2). unfold a0 in IH.
-        destruct (run sem ord fx st' (map Load ts)) as [st2 xs].
-        destruct (spec_run sem ord fx {| a_acc := acc ++ gs; a_snap := None |} (map Load ts)) as [a2 ys].
+        destruct (run sem fx st' (map Load ts)) as [st2 xs].
+        destruct (spec_run sem fx {| a_acc := acc ++ gs; a_snap := None |} (map Load ts)) as [a2 ys].
         cbn [fst snd] in *. destruct IH as [E [I2 [N2 [S2 M2]]]].
         split; [congruence|]. split; [exact I2|]. split; [exact N2|]. split; [exact S2|].
         destruct HM as [A [B [C [D [E' F]]]]]. destruct M2 as [A' [B' [C' [D' [E'' F']]]]]. repeat split; congruence.
       + rewrite (load_reject fx st acc t HI EL (or_intror HP1)).
         specialize (IH st acc HI HN HP2).
-        destruct (run sem ord fx st (map Load ts)) as [st2 xs].
-        destruct (spec_run sem ord fx (a0 acc) (map Load ts)) as [a2 ys].
+        destruct (run sem fx st (map Load ts)) as [st2 xs].
+        destruct (spec_run sem fx (a0 acc) (map Load ts)) as [a2 ys].
         cbn [fst snd] in *. destruct IH as [E [I2 [N2 [S2 M2]]]].
         split; [congruence|]. split; [exact I2|]. split; [exact N2|]. split; [exact S2|exact M2].
   Qed.
 
   Theorem first_process : forall fx ts,
     no_partial [] (map Load ts) ->
-    snd (run sem ord fx NewState (map Load ts ++ [Proc])) = snd (spec_run sem ord fx a_init (map Load ts ++ [Proc])).
+    snd (run sem fx NewState (map Load ts ++ [Proc])) = snd (spec_run sem fx a_init (map Load ts ++ [Proc])).
   Proof.
     intros fx ts HP.
     destruct (loads_sim fx ts NewState [] Inv_new (NoDup_nil _) HP) as [E [HI [HN [HS HM]]]].
     rewrite run_app. change (a0 []) with a_init in *.
-    assert (SA : forall a b aa, spec_run sem ord fx aa (a ++ b) =
-       let '(a1, xs) := spec_run sem ord fx aa a in let '(a2, ys) := spec_run sem ord fx a1 b in (a2, xs ++ ys)).
+    assert (SA : forall a b aa, spec_run sem fx aa (a ++ b) =
+       let '(a1, xs) := spec_run sem fx aa a in let '(a2, ys) := spec_run sem fx a1 b in (a2, xs ++ ys)).
     { induction a as [|o a IHa]; intros b aa; cbn [app spec_run].
-      - destruct (spec_run sem ord fx aa b); reflexivity.
-      - destruct (spec_step sem ord fx aa o) as [a1 x]. rewrite IHa.
-        destruct (spec_run sem ord fx a1 a) as [a2 xs]. destruct (spec_run sem ord fx a2 b) as [a3 ys]. reflexivity. }
+      - destruct (spec_run sem fx aa b); reflexivity.
+      - destruct (spec_step sem fx aa o) as [a1 x]. rewrite IHa.
+        destruct (spec_run sem fx a1 a) as [a2 xs]. destruct (spec_run sem fx a2 b) as [a3 ys]. reflexivity. }
     rewrite SA.
-    destruct (run sem ord fx NewState (map Load ts)) as [st1 xs].
-    destruct (spec_run sem ord fx a_init (map Load ts)) as [a1 ys]. cbn [fst snd] in *.
+    destruct (run sem fx NewState (map Load ts)) as [st1 xs].
+    destruct (spec_run sem fx a_init (map Load ts)) as [a1 ys]. cbn [fst snd] in *.
     cbn [run spec_run step spec_step].
     assert (HU : unprocessed st1).
     { destruct HM as [_ [_ [_ [D [E' F]]]]]. unfold unprocessed. rewrite <- D, <- E', <- F. repeat split. }
-    rewrite (surjective_pairing (Process sem ord fx st1)).
+    rewrite (surjective_pairing (Process sem fx st1)).
     rewrite (Process_batch fx st1 (a_acc a1) HI HN (or_intror HU)). cbn [snd]. congruence.
   Qed.
 End Refine.
 
 (* ------------------------------------------------------------------ the checked tree ([now]) *)
 Lemma refinement_now :
-  forall (obs : Type) (sem : view -> obs) (ord : list ghdr -> list ghdr) (ops : list op),
-  snd (run sem ord now NewState ops) = snd (spec_run sem ord now a_init ops).
+  forall (obs : Type) (sem : view -> obs) (ops : list op),
+  snd (run sem now NewState ops) = snd (spec_run sem now a_init ops).
 Proof. intros. apply refinement. reflexivity. Qed.
 
 Lemma process_twice_now :
-  forall (obs : Type) (sem : view -> obs) (ord : list ghdr -> list ghdr) (pre : list op),
-  let st := fst (run sem ord now NewState pre) in
-  snd (Process sem ord now (fst (Process sem ord now st))) = snd (Process sem ord now st).
+  forall (obs : Type) (sem : view -> obs) (pre : list op),
+  let st := fst (run sem now NewState pre) in
+  snd (Process sem now (fst (Process sem now st))) = snd (Process sem now st).
 Proof. intros. apply process_twice. reflexivity. Qed.
 
 Lemma incremental_now :
-  forall (obs : Type) (sem : view -> obs) (ord : list ghdr -> list ghdr) (pre : list op) (more : list text),
-  let st := fst (run sem ord now NewState (pre ++ Proc :: map Load more)) in
-  snd (Process sem ord now st) = batch sem ord now (accepted obs sem ord now (pre ++ Proc :: map Load more)).
+  forall (obs : Type) (sem : view -> obs) (pre : list op) (more : list text),
+  let st := fst (run sem now NewState (pre ++ Proc :: map Load more)) in
+  snd (Process sem now st) = batch sem now (accepted obs sem now (pre ++ Proc :: map Load more)).
 Proof. intros. apply incremental. reflexivity. Qed.
 
 Lemma failed_load_no_trace_now :
@@ -625,7 +624,7 @@ Lemma failed_load_no_trace_now :
 Proof. intros obs st t H. apply failed_load_no_trace; [exact H|left; reflexivity]. Qed.
 
 Lemma failed_load_invisible_now :
-  forall (obs : Type) (sem : view -> obs) (ord : list ghdr -> list ghdr) (st : state obs) (t : text) (post : list op),
+  forall (obs : Type) (sem : view -> obs) (st : state obs) (t : text) (post : list op),
   snd (load now st t) = false ->
-  run sem ord now st (Load t :: post) = (fst (run sem ord now st post), OLoad false :: snd (run sem ord now st post)).
-Proof. intros obs sem ord st t post H. apply failed_load_invisible; [exact H|left; reflexivity]. Qed.
+  run sem now st (Load t :: post) = (fst (run sem now st post), OLoad false :: snd (run sem now st post)).
+Proof. intros obs sem st t post H. apply failed_load_invisible; [exact H|left; reflexivity]. Qed.
